@@ -151,12 +151,7 @@ def atom_rx(run: Any, key: Any, value: SymStr) -> Rx:
         pat = info["pattern"]
         if not (isinstance(pat, Const) and isinstance(pat.value, str)):
             raise AtomError("dynamic regex")
-        rx = from_sre(pat.value)
-        if info["mode"] == "match":
-            return Seq(rx, SIGMA_STAR)
-        if info["mode"] == "fullmatch":
-            return rx
-        return Seq(SIGMA_STAR, rx, SIGMA_STAR)
+        return from_sre(pat.value, mode=info["mode"] if info["mode"] in ("match", "fullmatch") else "search")
     if info is not None and info["kind"] == "convert":
         if info["recv"] is not value:
             raise AtomError("conversion of something else than the lexeme")
@@ -321,6 +316,23 @@ def diverge(acc: Lang, rfc: Rx, classes: List[CharSet]) -> List[Divergence]:
     return acc.divergences(want)
 
 
+def number_literal_union(model: Model, extra_rx: List[Rx] = ()) -> Tuple[Optional[Lang], List[CharSet], Optional[str]]:
+    """Language of number-literal lexemes the library reads (INT and FLOAT tokens through their regexes, the
+    parser's predicates and the converter domains), on a partition that also refines `extra_rx`."""
+    pats = lexer_patterns(model)
+    tokre = token_regexes(model)
+    int_names, float_names = tokre.get("INT") or [], tokre.get("FLOAT") or []
+    if not int_names or not float_names:
+        raise AnalysisError("no regex is emitted as INT/FLOAT")
+    si = site_language(model, int_names, pats, literal_site(model, "INT"), exclude_prefix_of=float_names, extra_rx=[from_sre(pats[n]) for n in float_names] + list(extra_rx))
+    sf = site_language(model, float_names, pats, literal_site(model, "FLOAT"), extra_rx=[from_sre(pats[n]) for n in int_names] + list(extra_rx))
+    if si.undecided or sf.undecided:
+        return None, [], str(si.undecided or sf.undecided)
+    if [c.iv for c in si.classes] != [c.iv for c in sf.classes]:
+        return None, [], "INT and FLOAT site languages live on different partitions"
+    return si.accepted.product(sf.accepted, "or").minimize(), si.classes, None
+
+
 # ------------------------------------------------------------- the layer
 def _parser_and_stream(it: Interp, model: Model, toks: List[Inst]) -> Tuple[Inst, Inst]:
     env = real_env(it, model)
@@ -476,15 +488,21 @@ def lexical_layer(model: Model, report: Report, side: str, rule_prefix: str) -> 
                 for k, msg in definite:
                     report.fail(rule_prefix + ".L6", site, f"{what}:{k}", f"{what}: {msg}")
                 continue
-            rejecting = [pp for pp in dm.problems if pp[1].endswith(":rejected") or pp[1].endswith("pair-rejected")]
-            if rejecting and side == "b-only":
-                for part, k, msg, dfn in rejecting:
+            over, under, value_only, other = _strings.classify_problems(dm.problems)
+            if under and side == "b-only":
+                for part, k, msg, dfn in under:
                     report.fail(rule_prefix + ".L6", dfn.qualname, f"{what}:{k}", f"{what}: {msg}", file=dfn.file, line=dfn.line)
                 continue
-            if lx["problems"] or dm.problems:
-                # structure of the scanner/decoder itself is off: C09 reports the details
-                report.undecided(rule_prefix + ".L6", site, f"{what}: the string scanner/decoder does not have the expected structure ({(lx['problems'] or dm.problems)[0][1] if lx['problems'] else dm.problems[0][2]})")
+            if over and side == "a-only":
+                for part, k, msg, dfn in over:
+                    report.fail(rule_prefix + ".L6", dfn.qualname, f"{what}:{k}", f"{what}: {msg}", file=dfn.file, line=dfn.line)
                 continue
+            if lx["problems"] or other:
+                # structure of the scanner/decoder itself is off: C09 reports the details
+                rest = other
+                report.undecided(rule_prefix + ".L6", site, f"{what}: the string scanner/decoder does not have the expected structure ({lx['problems'][0][1] if lx['problems'] else rest[0][2]})")
+                continue
+            # problems that only change the decoded value (C01/C08/C09) leave the accepted language as modelled
             raw_lex = lx["raw"]
             impl = dm.body_rx(lx["escapes"], quote)
             # the lexer's own raw set further restricts raw characters
